@@ -429,6 +429,13 @@ Section Cache.
   | creach_refl : creach s0 s0
   | creach_step : forall s s', creach s0 s -> cstep s s' -> creach s0 s'.
 
+  Lemma creach_first : forall s0 s1 s, cstep s0 s1 -> creach s1 s -> creach s0 s.
+  Proof.
+    intros s0 s1 s H01 Hr. induction Hr as [| s s' Hr IH Hs].
+    - eapply creach_step; [apply creach_refl | exact H01].
+    - eapply creach_step; [exact IH | exact Hs].
+  Qed.
+
   Definition cinit (todo : nat -> list P) : cache_state :=
     mkC [] 0 0 None [] (fun i => (todo i, Idle)).
 
@@ -611,6 +618,23 @@ Section Cache.
     rewrite <- Habs in Hc, Hk. cbn in Hk. destruct Hc as [A B]. repeat split; assumption.
   Qed.
 End Cache.
+
+(* non-vacuity: one caller runs through a whole (missing) call *)
+Lemma cache_run_example :
+  exists s, creach nat nat Nat.eq_dec (fun p => p + 1) (cinit nat nat (fun i => if Nat.eqb i 0 then [7] else [])) s /\
+            c_log nat nat s = [(0, 7, 8)] /\ c_owner nat nat s = None /\ c_reads nat nat s = 1 /\ c_hits nat nat s = 0.
+Proof.
+  eexists. split.
+  - eapply creach_first; [eapply cs_lock with (i := 0); reflexivity |].
+    eapply creach_first; [eapply cs_ld_reads with (i := 0); reflexivity |].
+    eapply creach_first; [eapply cs_st_reads with (i := 0); reflexivity |].
+    eapply creach_first; [eapply cs_lookup with (i := 0); reflexivity |].
+    eapply creach_first; [eapply cs_child with (i := 0); reflexivity |].
+    eapply creach_first; [eapply cs_store with (i := 0); reflexivity |].
+    eapply creach_first; [eapply cs_unlock with (i := 0); reflexivity |].
+    apply creach_refl.
+  - cbn. repeat split; reflexivity.
+Qed.
 
 (* ------------------------------------------------------------------ 5. the pinned CacheSDF2.Evaluate *)
 
